@@ -311,6 +311,7 @@ PROPS = {
     ),
     'C12': dict(
         areas=[('quote', 1500, 150000)],
+        procs=['expand'], needs_fzf=True,
         rule='strings built from every shell metacharacter, quotes, backslashes, newlines, blanks, globs, `$()`, backticks, '
              'brace lists, non-ASCII; templates of literal words and placeholders {} {q} {+} {n} {+n} {N} {-N} {A..} {..B} {sN} '
              'and escaped ones, 0..3 items, 0..3 selected, AWK / literal delimiters; every expansion is evaluated by the real '
